@@ -1376,8 +1376,9 @@ func (g *c11G) lineEnd() {
 				return
 			}
 			if n == 0 {
-				e.Fail("continuation", "connection %s: continuation request for an empty literal, then nothing", g.s.Label)
-				return
+				// an empty literal is legal: the server asks for it like for any other and the
+				// command continues on the next line
+				e.St.Probes["empty_literal_accepted"]++
 			}
 			g.state, g.litN = c11Lit, n
 			x.lits++
